@@ -51,6 +51,8 @@
      exhausted only the end of the frame can be left).  Hence verdict and content are
      independent of the chunking: C08_chunking_independent proves the statement
      C08_chunking_independent_full_statement that earlier rounds left open.
+     C08_chunking_*_usingDict: the same for LZ4F_decompress_usingDict (the dictionary is
+     re-installed at every call made before the frame's blocks start, as the C code does).
      Proof (Proofs/FrameDChunk.v): a two-way simulation between the staged state (dStage, the
      prefixes held in header[] / tmpIn[], the not yet flushed part of tmpOut, running hashes,
      history, remaining size) and a position in frame_decode's parse of the whole frame.
@@ -173,6 +175,39 @@ Theorem C08_chunking_reaches : forall bdec o dict s data ns caps content rest,
 Proof. exact chunked_reaches. Qed.
 Print Assumptions C08_chunking_reaches.
 
+(* the same three statements for LZ4F_decompress_usingDict (the same dictionary at every call;
+   [drive_usingDict] : Proofs/FrameDChunk.v) *)
+Theorem C08_chunking_sound_usingDict : forall bdec o dict k s data ns caps content consumed,
+  wf s -> d_stage s = GetFrameHeader -> d_remaining s = 0 -> d_skip s = false ->
+  bytes_ok data = true -> Forall (fun c => 0 <= c) caps ->
+  drive_usingDict bdec dict o k s data ns caps [] 0 = VComplete content consumed ->
+  zlen content < 18446744073709551616 ->
+  (exists rest, frame_decode bdec (o_skip o) dict data = Some (content, rest) /\ consumed = zlen data - zlen rest)
+  \/ (content = [] /\ 4 <= consumed <= zlen data /\ Z.land (rd32 data) SKIP_MASK = FD_MAGIC_SKIPPABLE_START).
+Proof. exact chunked_sound_usingDict. Qed.
+Print Assumptions C08_chunking_sound_usingDict.
+
+Theorem C08_chunking_complete_usingDict : forall bdec o dict k s data ns caps content rest,
+  wf s -> d_stage s = GetFrameHeader -> d_remaining s = 0 -> d_skip s = false ->
+  bytes_ok data = true -> Forall (fun c => 0 <= c) caps ->
+  frame_decode bdec false dict data = Some (content, rest) ->
+  drive_usingDict bdec dict o k s data ns caps [] 0 <> VError /\
+  (drive_usingDict bdec dict o k s data ns caps [] 0 <> VMore ->
+   drive_usingDict bdec dict o k s data ns caps [] 0 = VComplete content (zlen data - zlen rest)).
+Proof. exact chunked_complete_usingDict. Qed.
+Print Assumptions C08_chunking_complete_usingDict.
+
+Theorem C08_chunking_reaches_usingDict : forall bdec o dict s data ns caps content rest,
+  o_dstnull o = false ->
+  wf s -> d_stage s = GetFrameHeader -> d_remaining s = 0 -> d_skip s = false ->
+  bytes_ok data = true -> Forall (fun n => 1 <= n) ns -> Forall (fun c => 1 <= c) caps ->
+  frame_decode bdec false dict data = Some (content, rest) ->
+  let K := Z.to_nat (zlen data + zlen content + 1) in
+  (K <= length ns)%nat -> (K <= length caps)%nat ->
+  drive_usingDict bdec dict o K s data ns caps [] 0 = VComplete content (zlen data - zlen rest).
+Proof. exact chunked_reaches_usingDict. Qed.
+Print Assumptions C08_chunking_reaches_usingDict.
+
 (* ---- the statement that earlier rounds left open ---- *)
 (* (the frame is valid with ALL checksums verified: under skipChecksums the code - and the model -
    still verifies the checksum of compressed blocks, see C08_example_skip_asymmetry) *)
@@ -231,6 +266,16 @@ Example C08_example_reaches :
   drive spec_decode (mkO false false false) 36 dctx_init data (repeat 1 36) (repeat 1 36) [] 0 = VComplete [97; 98; 99] 30 /\
   drive spec_decode (mkO false true false) 36 dctx_init data (repeat 1 36) (repeat 1 36) [] 0 = VComplete [97; 98; 99] 30.
 Proof. vm_compute. repeat split; reflexivity. Qed.
+
+(* with a dictionary: a compressed block whose match reaches into the dictionary, 1-byte pieces *)
+Example C08_example_chunked_usingDict :
+  let dict := [1; 2; 3; 4; 5; 6; 7; 8] in
+  let blk := [0x10; 122; 5; 0; 0x10; 33] in
+  let data := [4; 34; 77; 24; 96; 64; header_checksum [96; 64]] ++ le_bytes 4 6 ++ blk ++ [0; 0; 0; 0] in
+  frame_decode spec_decode false dict data = Some ([122; 5; 6; 7; 8; 33], []) /\
+  drive_usingDict spec_decode dict (mkO false false false) 40 dctx_init data (repeat 1 40) (repeat 1 40) [] 0
+  = VComplete [122; 5; 6; 7; 8; 33] (zlen data).
+Proof. vm_compute. split; reflexivity. Qed.
 
 Example C08_example_header :
   parse_desc [108; 64; 3; 0; 0; 0; 0; 0; 0; 0; 41]
